@@ -46,6 +46,7 @@ void ComplainAboutARPA(const Config &config, ModelType model_type) {
 }
 
 void CheckCounts(const std::vector<uint64_t> &counts) {
+  UTIL_THROW_IF(counts.size() < 2, FormatLoadException, "This model claims to have order " << counts.size() << " but this ngram implementation assumes at least a bigram model.");
   UTIL_THROW_IF(counts.size() > KENLM_MAX_ORDER, FormatLoadException, "This model has order " << counts.size() << " but KenLM was compiled to support up to " << KENLM_MAX_ORDER << ".  " << KENLM_ORDER_MESSAGE);
   if (sizeof(uint64_t) > sizeof(std::size_t)) {
     for (std::vector<uint64_t>::const_iterator i = counts.begin(); i != counts.end(); ++i) {
